@@ -52,12 +52,12 @@ func main() {
 	pkgsFlag := flag.String("pkgs", ".,persist/file,persist/s3", "package dirs relative to repo")
 	knownPath := flag.String("known", "/verif/known-findings.json", "known findings file")
 	replayDir := flag.String("replays", "/verif/replays", "replay directory")
-	workers := flag.Int("j", 8, "parallel solver processes")
+	workers := flag.Int("j", 6, "parallel solver processes")
 	verbose := flag.Bool("v", false, "verbose")
 	listOnly := flag.Bool("list", false, "list obligations only")
 	flag.Parse()
 	t0 := time.Now()
-	timeout := 10
+	timeout := 20
 	if *tier == "thorough" {
 		timeout = 60
 	}
@@ -241,7 +241,7 @@ func main() {
 			}
 			continue
 		}
-		if *verbose {
+		if *verbose && r.Status != "skipped" {
 			fmt.Printf("  FAILED %s (%s) %v\n", ob.Name, r.Status, r.Tried)
 		}
 		if r.Status == "skipped" {
